@@ -1094,11 +1094,35 @@ impl<'r, 'a> V<'r, 'a> {
                 // a unit-typed tail expression becomes a statement, so that end-of-body proof text can follow it
                 self.edits.push(Edit { start: e, end: e, text: ";".to_string() });
             }
+            // a `for` statement also answers to the text of its `for_each` form and vice versa, so that a hint anchored at one
+            // form still finds the statement after a for <-> for_each rewrite
+            let alias: Option<String> = match st {
+                Stmt::Expr(Expr::ForLoop(fl), _) => Some(format!(
+                    "{}.for_each(|{}|",
+                    norm(self.r.text(fl.expr.span())),
+                    norm(self.r.text(fl.pat.span()))
+                )),
+                Stmt::Expr(Expr::MethodCall(mc), _) if mc.method == "for_each" && mc.args.len() == 1 => {
+                    match closure_of(&mc.args[0]) {
+                        Some(c) if c.inputs.len() == 1 => Some(format!(
+                            "for {} in {}",
+                            norm(self.r.text(c.inputs[0].span())),
+                            norm(self.r.text(mc.receiver.span()))
+                        )),
+                        _ => None,
+                    }
+                }
+                _ => None,
+            };
             self.edits.push(Edit {
                 start: a,
                 end: a,
-                text: format!("/*@S:{}@*/ ", stext),
+                text: match &alias {
+                    Some(al) => format!("/*@S:{}@*/ /*@S:{}@*/ ", al, stext),
+                    None => format!("/*@S:{}@*/ ", stext),
+                },
             });
+            let alias_e = alias.clone();
             // R5: entry API as a statement
             if let Stmt::Expr(Expr::MethodCall(mc), Some(_)) = st {
                 if mc.method == "or_insert_with" && mc.args.len() == 1 {
@@ -1143,7 +1167,14 @@ impl<'r, 'a> V<'r, 'a> {
             self.visit_stmt(st);
             // end-of-statement marker (anchor for `after "<statement>"` hints); not for a tail expression
             if !matches!(st, Stmt::Expr(_, None)) {
-                self.edits.push(Edit { start: e, end: e, text: format!(" /*@E:{}@*/", stext) });
+                self.edits.push(Edit {
+                    start: e,
+                    end: e,
+                    text: match &alias_e {
+                        Some(al) => format!(" /*@E:{}@*/ /*@E:{}@*/", stext, al),
+                        None => format!(" /*@E:{}@*/", stext),
+                    },
+                });
             }
         }
         if closers > 0 {
